@@ -226,7 +226,7 @@ class Spec:
             c2, d2, pma2 = obs["recv"]
             bad.append({"clause": "receiver_" + c2, "observed": d2, "tolerance": TOL,
                         "quantities": {"pi_minus_angle": pma2}})
-        if obs.get("wr", 0.0) > 1e-9:
+        if not (obs.get("wr", 0.0) <= 1e-9):
             q = {"pi_minus_angle": pma} if op.name in ("setQuat",) else {}
             bad.append({"clause": "written_not_read_back", "observed": obs["wr"], "tolerance": 1e-9, "quantities": q})
         return bad
